@@ -20,7 +20,7 @@ ASSUMPTIONS = ["thread interleavings are sampled (yield injection + repetition),
                "besides the probe-level runs, 24 (quick) / 960 (thorough) runs, with thread switches injected inside the dispatchers, go through the library's real socket and asyncore dispatchers over loopback TCP",
                "senders start after the handshake completed, as applications do (the handshake thread's own writes are covered by C04)"]
 REQUIRED = ["runs", "stanzas_sent", "stanzas_decrypted", "interleaved_runs", "yields_injected", "ping_thread_runs", "entry:top",
-            "entry:sendIq", "entry:below-group", "early_sender_runs", "refused_during_handshake", "stalled_write_runs", "stalled_write_ok", "real_runs", "real_ok", "wire_bytes_equal", "real:socket", "real:asyncore"]
+            "entry:sendIq", "entry:below-group", "early_sender_runs", "refused_during_handshake", "stalled_write_runs", "stalled_write_ok", "s2c_flood_runs", "s2c_flood_frames", "real_runs", "real_ok", "wire_bytes_equal", "real:socket", "real:asyncore"]
 TIMEOUT = {"quick": 400, "thorough": 3600}
 
 YIELD_FILES = ("yowsup/layers/__init__.py", "yowsup/layers/noise/layer.py", "yowsup/layers/noise/layer_noise_segments.py",
@@ -178,14 +178,39 @@ def one_run(acc, seed, tag, d):
                     t = None
                 done += 1
                 if t and t[0] == "iq" and t[1].get("xmlns") == "w:p":
-                    T.deliver(srv.encrypt(refcodec.encode_canonical(("iq", {"id": t[1]["id"], "type": "result", "from": "s.whatsapp.net"}, [], None))))
+                    with s2c_lock:
+                        T.deliver(srv.encrypt(refcodec.encode_canonical(("iq", {"id": t[1]["id"], "type": "result", "from": "s.whatsapp.net"}, [], None))))
                     pongs["n"] += 1
             time.sleep(0.0002)
 
     pt = None
+    s2c_lock = threading.Lock()      # the server double writes its stream from one place at a time (encrypt + hand over)
+    flood_sent = []
+    flood_stop = threading.Event()
+
+    def flooder(rr):
+        """The server keeps sending while the client's threads send: the network thread works through the receive path of
+        the very layers the senders are inside."""
+        k = 0
+        while not flood_stop.is_set() and k < 400:
+            st_ = ("iq", {"id": "flood-%d" % k, "type": "set", "xmlns": "w"}, [("blob", {}, [], gen.blob(rr, rr.choice([0, 3, 40, 300]) + 1))], None)
+            try:
+                with s2c_lock:
+                    T.deliver(srv.encrypt(refcodec.encode_canonical(st_)))
+            except Exception:
+                return
+            flood_sent.append("flood-%d" % k)
+            k += 1
+            time.sleep(rr.choice([0, 0, 0.0002, 0.001]))
+    ft = None
     try:
         if yi:
             yi.__enter__()
+        if d.get("flood") and not early:
+            acc.count("s2c_flood_runs")
+            ft = threading.Thread(target=flooder, args=(random.Random(r.randrange(1 << 30)),), name="verif-flooder")
+            ft.daemon = True
+            ft.start()
         if d["ping"]:
             iqmod.time = FastClock()
             acc.count("ping_thread_runs")
@@ -203,6 +228,9 @@ def one_run(acc, seed, tag, d):
         for t in threads:
             t.join(max(0.1, deadline - time.time()))
         alive = [t.name for t in threads if t.is_alive()]
+        flood_stop.set()
+        if ft is not None:
+            ft.join(10)
         if d["ping"]:
             time.sleep(0.01)
             T.iq.stop_thread()
@@ -233,6 +261,17 @@ def one_run(acc, seed, tag, d):
         return
     acc.count("stanzas_sent", len(sent))
     acc.count("refused_during_handshake", refused["n"])
+    if flood_sent:
+        # what the server sent during the run came up complete and in order
+        def flood_up():
+            return [n_["id"] for n_ in list(T.mid.received) if hasattr(n_, "tag") and str(n_["id"] or "").startswith("flood-")]
+        T.wait(lambda: len(flood_up()) >= len(flood_sent), 10)
+        ups = flood_up()
+        acc.count("s2c_flood_frames", len(flood_sent))
+        if ups != flood_sent:
+            acc.violation("s2c-during-sends:%s" % ("lost" if len(ups) < len(flood_sent) else "order"), "server frames delivered while client threads were sending did not all come up in order: %d of %d, first ids %s"
+                          % (len(ups), len(flood_sent), ups[:3]), w)
+            return
     if early and not T.wait(in_transport, 20):
         acc.inconc("%s: handshake did not complete in an early-sender run (%s)" % (tag, srv.errors))
         return
@@ -482,7 +521,7 @@ def make_desc(r):
     k = r.choice([2, 3, 4])
     entries = [r.choice(["top", "sendIq", "below-group"]) for _ in range(k)]
     return {"entries": entries, "per_thread": r.choice([10, 30, 40]), "ping": r.random() < 0.35, "switch": r.choice([0.005, 0.00001]),
-            "yseed": r.randrange(1 << 30), "yp": r.choice([0.0, 0.02, 0.1, 0.25]), "early": r.random() < 0.25}
+            "yseed": r.randrange(1 << 30), "yp": r.choice([0.0, 0.02, 0.1, 0.25]), "early": r.random() < 0.25, "flood": r.random() < 0.4}
 
 
 def shards(tier, seed, nworkers):
